@@ -67,6 +67,16 @@ def pair_cases(start):
     return out
 
 
+def join_cases(start):
+    """every bound grid compiled into drv_clipped x every extent tuple within the bounds"""
+    grids = [(a, b) for a in (1, 2, 3, 6) for b in (1, 2, 3, 6)] + [(a, b, c) for (a, b) in ((1, 1), (1, 3), (2, 1), (2, 3), (4, 1), (4, 3)) for c in (1, 2, 4)]
+    out = []; n = start
+    for g in grids:
+        for e in itertools.product(*[range(1, b + 1) for b in g]):
+            n += 1; out.append(dict(id=n, op="join", bounds=list(g), extents=list(e)))
+    return out
+
+
 def programs(maxd):
     steps = [dict(op=o, variant=v, args=denote_args(o, v), shapes=[[]]) for o in OPS for v in VARIANTS[o]]
     out = [[s] for s in steps]
@@ -156,6 +166,19 @@ def run(tier, seed):
                         {k: res.get(k) for k in ("traits", "shape", "dim", "size", "eval_shape", "eval_traits", "crash", "ok")},
                         what=f"{case.get('op')} ({case.get('args', {}).get('form')}) over leaves of kinds {case.get('kinds')}: {m['why']}", driver=os.path.basename(pbins[i]))
     ck.extra["pair_cases"] = sum(len(v) for v in pairs.values())
+    # the index type the axes of a clipped shape are joined into (StaticInfo.AbsJoin): every extent must survive the conversion
+    jcases = join_cases(n + ck.extra["pair_cases"])
+    jbin = vlib.build_driver("drv_clipped", flags=("-O0",))
+    files = vlib.run_driver(jbin, jcases, ck.workdir, "clipped_join", nproc=4)
+    mism, st = vlib.validate_traces("TraceStatic", files)
+    ck.add_trace_stats(st, len(jcases)); total += len(jcases)
+    for m in mism:
+        ev = m["event"]; res = ev.get("res", {})
+        case = {k: v for k, v in ev.items() if k not in ("res", "e")}
+        ck.mismatch(canon(["join", case.get("bounds"), case.get("extents")]), "crash" if res.get("crash") else "join_loses_extent", case, dict(at=case.get("extents"), join_contains=[0, max(case.get("bounds", [0]))]),
+                    {k: res.get(k) for k in ("at", "direct", "join", "product", "crash")},
+                    what=f"clipped shape with bounds {case.get('bounds')} holding {case.get('extents')}: {m['why']}", driver="drv_clipped")
+    ck.extra["join_cases"] = len(jcases)
     ck.checker_cmds.append("TRACE=<events> tlc -config spec/TraceStatic.cfg spec/TraceStatic.tla")
     ck.nontrivial_count = total
     ck.rule = ("view types = leaves of six static-knowledge kinds (constant shape, clipped shape, fixed dimension, bounded dimension, bounded size, dynamic) x programs of depth 1..2 over transpose, flatten, "
@@ -163,7 +186,8 @@ def run(tier, seed):
                "shape the leaf admits within its bound is instantiated (e.g. all nine shapes under a clipped (3,3) bound); per instance the five traits (fixed_shape, fixed_dim, fixed_size, bounded_dim, "
                "bounded_size) of the view type and of the type eval() chose are checked for soundness against shape()/dim()/size(), eval() must return every element, and the object must be the view the "
                "reference semantics defines (TraceOps: shape and every element, i.e. nothing clipped); binary views (concatenate with run-time / compile-time / negative / None axis, add, stack) over every pair of "
-               "seven leaf kinds that compiles (277 of 294 combinations, table found by trial compilation) with every admitted pair of run-time shapes incl. sums that exceed one operand's bound")
+               "seven leaf kinds that compiles (277 of 294 combinations, table found by trial compilation) with every admitted pair of run-time shapes incl. sums that exceed one operand's bound; "
+               "the index type a clipped shape's axes are joined into (common type, read at a run-time position) for 34 bound tuples x every extent tuple within the bounds (StaticInfo.AbsJoin / SoundJoin)")
     ck.exhaustive = not quick
     ck.assumptions += ["clipped-shape leaves compose only with flatten and reshape (every other view is a compile-time error in this version)", "depth-3 types are not generated (compile time)"]
     for i, cases in by_first.items():
@@ -184,6 +208,15 @@ def replay(rec):
         for m in m2: print("expected:", canon(m["expect"])[:400])
         print("replay:", "mismatch reproduced on the current tree" if (m1 or m2) else "no mismatch on the current tree")
         return 1 if (m1 or m2) else 0
+    if case.get("op") == "join":
+        drv = vlib.build_driver("drv_clipped", flags=("-O0",))
+        wd = os.path.join(vlib.BUILD, "replay"); os.makedirs(wd, exist_ok=True)
+        files = vlib.run_driver(drv, [case], wd, "replay", nproc=1)
+        mism, st = vlib.validate_traces("TraceStatic", files)
+        ev = [json.loads(l) for l in open(files[0])][0]
+        print("case:", canon(case)); print("observed:", canon(ev.get("res"))[:800])
+        print("replay:", "mismatch reproduced on the current tree" if mism else "no mismatch on the current tree")
+        return 1 if mism else 0
     i = OPS.index(case["prog"][0]["op"])
     drv = vlib.build_driver("drv_static", flags=("-DMAXD=2", f"-DFIRST_IDX={i}", "-O0"), tag=f"_d2_{i}")
     wd = os.path.join(vlib.BUILD, "replay"); os.makedirs(wd, exist_ok=True)
